@@ -334,7 +334,8 @@ CHECKS = {
         "technique": "bounded exhaustive enumeration + rapid property-based testing against a reference bsdiff applier; rapid state-machine-style op sequences for the read cache against a []byte model",
         "level_text": ("(a) exhaustive: alphabet 2, old and new up to 6 (thorough: 8) bytes, partitions 0..3 (thorough 0..4); (b) rapid: lengths to "
                        "3MiB, periodic and high-entropy, new = edited old or unrelated, old/new empty or shorter than the partition count, "
-                       "partitions 0..16, concurrency -1..4, GOMAXPROCS {1,2,16}; (c) split point j: controls j.. applied from the recorded OldOffset "
+                       "partitions 0..16, concurrency -1..4, GOMAXPROCS {1,2,16}; half of the enumerated and a third of the generated cases (up to 512 KiB) run on a DiffContext that has just "
+                       "diffed another pair (the two strings with roles swapped), as rediff uses one context for all files of a patch; (c) split point j: controls j.. applied from the recorded OldOffset "
                        "in a brand-new IndividualPatchContext; (d) lrufile op sequences (Seek x3 whences incl. out-of-range, Read, Reset) for chunk "
                        "sizes 1..70 and capacities 1..8 against a []byte model; (e) hand-built valid control series over a 40MiB old file (beyond "
                        "the patcher's 32MiB cache) with far seeks. Oracles: exactly one end-of-series message, last; sum(add+copy)==len(new); "
